@@ -13,8 +13,10 @@ Exactly one thread runs at any instant, so a run is a total order of line
 events; ``digest`` hashes the sequence of slices (thread, #events, last line).
 """
 import hashlib
+import os
 import sys
 import threading
+import time
 
 
 _tls = threading.local()
@@ -39,13 +41,7 @@ def _ensure_instruction_tool():
             return
         sched = _tls.sched
         t.steps += 1
-        if t.budget > 0:
-            t.budget -= 1
-            if t.budget == 0:
-                sched.ctrl.release()
-                t.sem.acquire()
-                if sched.aborting:
-                    raise SimAbort()
+        sched._tick(t)
 
     mon.register_callback(_TOOL, mon.events.INSTRUCTION, on_instruction)
     _tool_ready[0] = True
@@ -79,13 +75,17 @@ class StepCapExceeded(Exception):
     """Harness-level timeout: not a violation."""
 
 
+class SimDeadlock(RuntimeError):
+    """Every live simulated task is blocked on a synchronisation primitive the simulator does not own."""
+
+
 class SimTaskFault(MemoryError):
     """Injected failure of one simulated task (a failing allocation at an arbitrary point of a worker)."""
 
 
 class SimTask:
     __slots__ = ("idx", "name", "fn", "deps", "result", "exc", "started", "done",
-                 "sem", "budget", "steps", "lastline", "thread", "slices", "fail_at")
+                 "sem", "budget", "steps", "lastline", "thread", "slices", "fail_at", "has_baton", "blocked", "waiting")
 
     def __init__(self, idx, name, fn, deps=()):
         self.idx = idx
@@ -103,6 +103,9 @@ class SimTask:
         self.thread = None
         self.slices = 0
         self.fail_at = None
+        self.has_baton = False
+        self.blocked = False
+        self.waiting = False
 
 
 RUNLEN_LADDER = (1, 2048, 256, 64, 16, 4)   # index 0: never pre-empt
@@ -119,6 +122,13 @@ class Scheduler:
         self.roots = tuple(roots)
         self.step_cap = step_cap
         self.ctrl = threading.Semaphore(0)
+        self._mx = threading.Lock()
+        # a task that neither yields nor finishes within block_timeout is taken to be blocked on a real lock / queue
+        # introduced by the code under test (the shipped library has none): the baton is revoked, other tasks go on,
+        # and the task parks itself at its next trace event.  Wall-clock based, hence not replay-exact: only a
+        # safety net so that such code is reported (or at least never hangs the check).
+        self.block_timeout = float(os.environ.get("VERIF_BLOCK_TIMEOUT", "10" if os.environ.get("NUMBA_DISABLE_JIT") == "1" else "90"))
+        self.blocked_events = 0
         self.aborting = False
         self._h = hashlib.sha256()
         # statistics of the whole run (several graphs may be executed)
@@ -152,13 +162,7 @@ class Scheduler:
                         sched.task_fault_fired = (task.idx, frame.f_code.co_name, frame.f_lineno)
                         task.fail_at = None
                         raise SimTaskFault(f"simulated allocation failure in task {task.idx} at {frame.f_code.co_name}:{frame.f_lineno}")
-                if task.budget > 0:
-                    task.budget -= 1
-                    if task.budget == 0:
-                        sched.ctrl.release()
-                        task.sem.acquire()
-                        if sched.aborting:
-                            raise SimAbort()
+                sched._tick(task)
             return local_trace
 
         def global_trace(frame, event, arg):
@@ -168,8 +172,33 @@ class Scheduler:
 
         return global_trace
 
-    def _thread_main(self, task):
+    def _tick(self, task):
+        """Called in the task's thread at every pre-emption point."""
+        if not task.has_baton:
+            # the baton was revoked while this thread was blocked in something the simulator does not own
+            self._park(task)
+            return
+        if task.budget > 0:
+            task.budget -= 1
+            if task.budget == 0:
+                self._park(task)
+
+    def _park(self, task):
+        with self._mx:
+            had = task.has_baton
+            task.has_baton = False
+            task.waiting = True
+        if had:
+            self.ctrl.release()
         task.sem.acquire()
+        task.waiting = False
+        if self.aborting:
+            raise SimAbort()
+
+    def _thread_main(self, task):
+        task.waiting = True
+        task.sem.acquire()
+        task.waiting = False
         if self.aborting:
             task.done = True
             return
@@ -186,16 +215,32 @@ class Scheduler:
         finally:
             sys.settrace(None)
             _tls.task = None
-            task.done = True
-            self.ctrl.release()
+            with self._mx:
+                task.done = True
+                had = task.has_baton
+                task.has_baton = False
+            if had:
+                self.ctrl.release()
 
     # ------------------------------------------------------------------ running
     def _give(self, task, budget):
         task.budget = budget
         before = task.steps
         self.current = task
+        with self._mx:
+            task.has_baton = True
+            task.blocked = False
         task.sem.release()
-        self.ctrl.acquire()
+        if not self.ctrl.acquire(timeout=self.block_timeout):
+            with self._mx:
+                revoked = task.has_baton and not task.done
+                if revoked:
+                    task.has_baton = False
+                    task.blocked = True
+            if revoked:
+                self.blocked_events += 1
+            else:
+                self.ctrl.acquire()     # it yielded or finished just now: consume that signal
         self.current = None
         n = task.steps - before
         task.slices += 1
@@ -223,10 +268,27 @@ class Scheduler:
                     ready = []
                 if not running and not ready:
                     break
+                # reap tasks that finished while they did not hold the baton
+                for t in [t for t in running if t.done]:
+                    running.remove(t)
+                    t.thread.join()
+                    if t.exc is not None and first_exc is None:
+                        first_exc = t.exc
+                if not running and not ready:
+                    break
                 options = []
                 if len(running) < pool:
                     options.extend(("start", t) for t in ready)
-                options.extend(("step", t) for t in running)
+                # a blocked task is schedulable again once it has parked itself
+                options.extend(("step", t) for t in running if not t.blocked or t.waiting)
+                if not options:
+                    # every live task is blocked outside the simulator: wait for one of them to come back
+                    t_end = time.time() + 6 * self.block_timeout
+                    while time.time() < t_end and not any(t.done or t.waiting for t in running):
+                        time.sleep(0.02)
+                    if not any(t.done or t.waiting for t in running):
+                        raise SimDeadlock(f"{len(running)} simulated task(s) blocked on a lock or queue the simulator does not own")
+                    continue
                 kind, t = options[tape.draw("sched.pick", len(options))]
                 if kind == "start":
                     pending.remove(t)
@@ -252,6 +314,8 @@ class Scheduler:
                     t.thread.join()
                     if t.exc is not None and first_exc is None:
                         first_exc = t.exc
+                elif t.blocked:
+                    pass
                 else:
                     self.switches += 1
                     if len(running) >= 2:
@@ -285,4 +349,5 @@ class Scheduler:
             "graphs": self.graphs,
             "tasks": self.tasks_run,
             "runlen_n": self.runlen_n,
+            "blocked_events": self.blocked_events,
         }
